@@ -148,7 +148,9 @@ def _filed(prop):
                 continue
             if kind == "seeded" and meta.get("property") == prop and meta.get("confirmed"):
                 out.append({"id": f"filed-change:{name}", "patch": pp, "expect": prop})
-            elif kind == "benign" and meta.get("suite_green"):
+            elif kind == "benign" and meta.get("suite_green") and meta.get("silent"):
+                # regression guard: refactorings on which every property was silent at their last re-evaluation (tools/reeval_benign.py)
+                # must stay silent; the ones still raising an alarm are listed by that tool as open work, not replayed here
                 out.append({"id": f"filed-refactoring:{name}", "patch": pp, "expect": None})
     return out
 
